@@ -469,13 +469,25 @@ def shipped_lists():
                         rows.append((bc, int(ix) if ix.isdigit() else ix))
             if not rows:
                 continue
-            if not all(set(bc) <= set(ALPHA) for bc, _ in rows):
+            if len({bc for bc, _ in rows}) != len(rows):
                 continue
-            if len({len(bc) for bc, _ in rows}) != 1 or len({bc for bc, _ in rows}) != len(rows):
+            n_rows = len(rows)
+            # entries outside ACGTN (XXXXXX placeholders, dual indices written A+B) stay in the parser but can never be the
+            # correction of a query over ACGTN (every variant within k < L still holds a foreign symbol): they are not queried
+            rows = [(bc, ix) for bc, ix in rows if set(bc) <= set(ALPHA)]
+            if not rows:
                 continue
             alias = fn.replace('.gz', '').replace('.bc', '')
             alias = os.path.splitext(os.path.basename(p))[0].replace('.gz', '').replace('.bc', '')
-            out.append((sub, alias, [bc for bc, _ in rows], [ix for _, ix in rows]))
+            lengths = sorted({len(bc) for bc, _ in rows})
+            if len(lengths) == 1 and len(rows) == n_rows:
+                out.append((sub, alias, [bc for bc, _ in rows], [ix for _, ix in rows]))
+            else:
+                # a shipped list holding barcodes of several lengths (the merged index lists): a query can only be corrected
+                # to a barcode of its own length, so each length class is a whitelist of its own behind the same alias
+                for L in lengths:
+                    sel = [(bc, ix) for bc, ix in rows if len(bc) == L]
+                    out.append((sub, f'{alias}@{L}', [bc for bc, _ in sel], [ix for _, ix in sel]))
     return out
 
 
@@ -514,7 +526,8 @@ def check_shipped(case):
         nums //= 5
     lut = np.array(list(ALPHA))
     q_strs = [''.join(r) for r in lut[q_arr]]
-    return compare(lambda s: bp.getIndexCorrectedBarcodeAndHammingDistance(s, alias), tuple(wl), idx, k, q_arr, q_strs,
+    real_alias = alias.split('@')[0]
+    return compare(lambda s: bp.getIndexCorrectedBarcodeAndHammingDistance(s, real_alias), tuple(wl), idx, k, q_arr, q_strs,
                    site='shipped' + (':whole-directory-parser' if case.get('eager_dir') else ''))
 
 
